@@ -56,13 +56,14 @@ class C14(Check):
                ('src/fast_ticc/graphical_lasso.py', '_retrieve_optimization_results'),
                ('src/fast_ticc/admm/unique_values.py', 'locations_compressed'),
                ('src/fast_ticc/admm/solver.py', 'admm_update_z')]
-    obligations = ['result_independent_of_completion_order', 'result_independent_of_pool_size_and_env',
+    obligations = ['repeated_run_with_repopulation_equal', 'result_independent_of_completion_order', 'result_independent_of_pool_size_and_env',
                    'pool_size_follows_env_and_argument', 'two_runs_equal', 'result_independent_of_earlier_calls',
                    'cached_lists_not_mutated']
     obligation_text = {
         'result_independent_of_completion_order': 'for every permutation in which the optimisation tasks complete, the complete result is term-equal to the in-order run',
         'result_independent_of_pool_size_and_env': 'num_processors in 1..8 and CUPCAKE_ENABLE_MULTIPROCESSING set/unset give term-equal results',
         'pool_size_follows_env_and_argument': 'the pool is created with processes = num_processors iff the variable is set and non-empty, else 1',
+        'repeated_run_with_repopulation_equal': 'a run that goes through a repopulation event, repeated in the same process from equal random-generator states (after another run that also repopulated), returns term-equal results',
         'two_runs_equal': 'two runs from equal RNG-stub values are term-equal',
         'result_independent_of_earlier_calls': 'Z-update results after arbitrary earlier calls with other (N,W) (populated functools caches) equal those after a cache clear',
         'cached_lists_not_mutated': 'lists handed out by the cached index helpers are still equal to a fresh computation after the run',
@@ -87,15 +88,21 @@ class C14(Check):
             for lim in (1, 2):
                 cfgs.append(Config('schedule_K%d_lim%d' % (K, lim), self.schedule, {'K': K, 'lim': lim}, split=3))
         cfgs.append(Config('pool_size', self.pool_size, {'K': 2}, split=2))
+        cfgs.append(Config('repopulating_runs', self.repopulating_runs, {}, split=3))
         cfgs.append(Config('cache_order', self.cache_order, {}, nonlinear=True))
         return cfgs
 
-    def _run(self, c, K, lim, schedule, env=None, nproc=1, admm=None):
+    def _run(self, c, K, lim, schedule, env=None, nproc=1, admm=None, repop=None, labels=None, P=3, data=None):
         Rp = self.R
-        P = 3
-        data = np.zeros((P, 1))
-        ml = MainLoop(Rp, c, K, 1, modes={'initial': 'summary', 'optimise': 'real'}, schedule=schedule, env_mp=env,
-                      label_hook=lambda r, T: [(i + r) % K for i in range(T)], admm='none')
+        modes = {'initial': 'summary', 'optimise': 'real'}
+        if repop:
+            modes['repopulate'] = 'real'
+        if data is not None:
+            modes['statistics'] = 'real'      # the fitted statistics then depend on which points moved
+        else:
+            data = np.zeros((P, 1))
+        ml = MainLoop(Rp, c, K, 1, modes=modes, schedule=schedule, env_mp=env,
+                      label_hook=labels or (lambda r, T: [(i + r) % K for i in range(T)]), admm='none')
         ml.s_initial = lambda k, d: [i % K for i in range(len(d))]
         ml.fresh = 0
         stubs.install_linalg(det=lambda M: core.SymReal(z3.Real('det_of_%s' % abs(hash(str(M._flat()))))),
@@ -103,13 +110,17 @@ class C14(Check):
                              inv=lambda M: M)
         old = Rp.admm.admm_optimize_theta
         Rp.admm.admm_optimize_theta = admm
+        old_random = Rp.cm.random
+        if repop:
+            Rp.cm.random = repop
         try:
             with ml:
                 res = Rp.front_end.ticc_labels(data, window_size=1, num_clusters=K, iteration_limit=lim,
                                                min_cluster_size=1, sparsity_weight=0.1, label_switching_cost=1.0,
-                                               num_processors=nproc)
+                                               num_processors=nproc, biased_covariance=True)
         finally:
             Rp.admm.admm_optimize_theta = old
+            Rp.cm.random = old_random
         return res, ml
 
     def schedule(self, c, K, lim):
@@ -124,6 +135,51 @@ class C14(Check):
         c.prove('result_independent_of_completion_order', results_equal(ref, res))
         again, _ = self._run(c, K, lim, 'fifo', admm=admm)
         c.prove('two_runs_equal', results_equal(ref, again))
+
+    def repopulating_runs(self, c):
+        """Round 0 relabels everything into cluster 0, so round 1 starts with a repopulation event.
+        The global generator is a stub whose state the harness resets before every run ("equal states
+        of the random generators"); an earlier run with another size also repopulates."""
+        K, lim, P = 2, 2, 4
+        admm = KeyedADMM(c, self.R)
+        draws = [c.int('draw_%d' % j, 0, P - 1) for j in range(2)]
+
+        class SeededStub:
+            def __init__(self):
+                self.n = 0
+
+            def seed(self):
+                self.n = 0
+
+            def sample(self, population, k):
+                pop = list(population)
+                out, used = [], set()
+                for j in range(int(k)):
+                    i = int(draws[(self.n + j) % len(draws)]) % len(pop)
+                    while i in used:
+                        i = (i + 1) % len(pop)
+                    used.add(i)
+                    out.append(pop[i])
+                self.n += int(k)
+                return out
+        rnd = SeededStub()
+        labels = lambda r, T: [0] * T if r == 0 else [i % K for i in range(T)]
+        stubs_norm = stubs.NormOracle('spread')
+        c.notes.update({'kind': 'repopulating'})
+        data = stubs.sym_array(c, 'x', (P, 1), writeable=False)
+        data2 = stubs.sym_array(c, 'y', (P + 1, 1), writeable=False)
+        rnd.seed()
+        ref, ml0 = self._run(c, K, lim, 'fifo', admm=admm, repop=rnd, labels=labels, P=P, data=data)
+        rnd.seed()
+        other, _ = self._run(c, K, lim, 'fifo', admm=admm, repop=rnd, labels=labels, P=P + 1, data=data2)
+        rnd.seed()
+        ok, out = guarded(c, 'repeated_run_with_repopulation_equal', self._run, c, K, lim, 'fifo', None, 1, admm,
+                          rnd, labels, P, data)
+        if not ok:
+            return
+        again, ml2 = out
+        repop_events = [t for t in ml2.trace if t[1] == 'repopulate' and t[3] is not t[2]]
+        c.prove('repeated_run_with_repopulation_equal', conj([results_equal(ref, again), len(repop_events) >= 1]))
 
     def pool_size(self, c, K):
         admm = KeyedADMM(c, self.R)
